@@ -379,11 +379,44 @@ def recover(d, ledger_path, result_path, deliver, dry_ledger=None):
 
             bad("restart-failed", f"{type(e).__name__}: {e}; {traceback.format_exc()[-400:]}")
             return
-        s = rig.session("R")
+        state = await inspect(rig, "R")
+        if state is None:
+            return
+        res["recovered"] = {k: (v if v is None else {"vv": v["vv"], "uidnext": v["uidnext"], "n": len(v["rows"])}) for k, v in state.items()}
+        if model is not None:
+            judge(model, inflight, state, bad, res, after)
+        # what the restart repaired has to be durable as well: the recovered server is killed in its turn (it has
+        # only been looked at) and a third one must show the same -- the acknowledged state judged exactly as before
+        if res["ok"] and model is not None:
+            try:
+                await rig.kill()
+                rig = await R.Rig(d, loop).start()
+                rig.server.initial_folder_scan = True
+                await rig.server.check_all_folders()
+                rig.server.initial_folder_scan = False
+            except BaseException as e:  # noqa: B036
+                import traceback
+
+                bad("second-restart-failed", f"{type(e).__name__}: {e}; {traceback.format_exc()[-400:]}")
+                return
+            state2 = await inspect(rig, "Q")
+            if state2 is None:
+                return
+            res["second_recovery"] = True
+            n0 = len(res["problems"])
+            judge(model, inflight, state2, bad, res, after)
+            for p_ in res["problems"][n0:]:
+                p_[1] = "(after the recovered server was killed in its turn) " + p_[1]
+            state = state2
+        s = rig.session("R3")
+        await usability(rig, s, state)
+
+    async def inspect(rig, sname):
+        s = rig.session(sname)
         r = await s.cmd('LIST "" *')
         if not r.ok:
             bad("list-failed", r.brief())
-            return
+            return None
         state = {}
         for x in r.untagged("LIST"):
             nm = x.data["name"]
@@ -417,9 +450,13 @@ def recover(d, ledger_path, result_path, deliver, dry_ledger=None):
                         fl = sorted(f for f in (canon_flag(x) for x in dd.get("FLAGS", [])) if f not in ("\\Recent", "unseen"))
                         rows.append([dd["UID"], cid_of_fetch(dd), fl])
             state[nm] = {"vv": vv, "uidnext": nxt, "rows": rows}
-        res["recovered"] = {k: (v if v is None else {"vv": v["vv"], "uidnext": v["uidnext"], "n": len(v["rows"])}) for k, v in state.items()}
-        if model is not None:
-            judge(model, inflight, state, bad, res, after)
+        try:
+            await s.cmd("LOGOUT")
+        except Exception:
+            pass
+        return state
+
+    async def usability(rig, s, state):
         # the recovered server must also be usable: a mailbox created now is new
         # (nothing of a mailbox that was being removed when the process died may
         # stick to it) and INBOX accepts mail
